@@ -289,7 +289,11 @@ type brokerFront struct {
 	clientPolls  int64
 	tamperOffer  func(pollResponseBody []byte) []byte
 	tamperAnswer func(clientResponseBody []byte) []byte
-	refuse       int32 // 1 = answer every request with HTTP 500
+	onOffer      func(proxyPort int) // a poll response carrying an offer is about to be relayed to the proxy
+	onAnswer     func(proxyPort int) // a proxy's answer is about to be relayed to the broker
+	dropAnswers  int32               // answers to clients to be replaced by "timed out" (lost answer)
+	delayAnswers int32               // answers to clients to be delayed by 8 s
+	refuse       int32               // 1 = answer every request with HTTP 500
 }
 
 func startFront(brokerAddr string) (*brokerFront, error) {
@@ -317,6 +321,17 @@ func startFront(brokerAddr string) (*brokerFront, error) {
 				resp.Header.Set("Content-Length", fmt.Sprint(len(body)))
 			}
 		}
+		if resp.Request.URL.Path == "/client" {
+			if n := atomic.LoadInt32(&bf.dropAnswers); n > 0 && atomic.CompareAndSwapInt32(&bf.dropAnswers, n, n-1) {
+				body := []byte(`{"error":"timed out waiting for answer!"}`)
+				resp.Body.Close()
+				resp.Body = ioutil.NopCloser(bytes.NewReader(body))
+				resp.ContentLength = int64(len(body))
+				resp.Header.Set("Content-Length", fmt.Sprint(len(body)))
+			} else if n := atomic.LoadInt32(&bf.delayAnswers); n > 0 && atomic.CompareAndSwapInt32(&bf.delayAnswers, n, n-1) {
+				time.Sleep(8 * time.Second)
+			}
+		}
 		if resp.Request.URL.Path == "/proxy" {
 			body, err := ioutil.ReadAll(resp.Body)
 			resp.Body.Close()
@@ -328,6 +343,12 @@ func startFront(brokerAddr string) (*brokerFront, error) {
 			bf.mu.Unlock()
 			if t != nil {
 				body = t(body)
+			}
+			bf.mu.Lock()
+			oo := bf.onOffer
+			bf.mu.Unlock()
+			if oo != nil && bytes.Contains(body, []byte(`"client match"`)) {
+				oo(remotePort(resp.Request.RemoteAddr))
 			}
 			resp.Body = ioutil.NopCloser(bytes.NewReader(body))
 			resp.ContentLength = int64(len(body))
@@ -366,6 +387,12 @@ func startFront(brokerAddr string) (*brokerFront, error) {
 		case "/proxy":
 			atomic.AddInt64(&bf.polls, 1)
 		case "/answer":
+			bf.mu.Lock()
+			oa := bf.onAnswer
+			bf.mu.Unlock()
+			if oa != nil {
+				oa(remotePort(r.RemoteAddr))
+			}
 			var m struct{ Answer string }
 			if json.Unmarshal(body, &m) == nil {
 				var d struct {
@@ -530,6 +557,16 @@ func (s *system) up(keepLocal bool) error {
 	}
 	s.frontAddr = s.front.ln.Addr().String()
 	return nil
+}
+
+func remotePort(addr string) int {
+	_, p, err := net.SplitHostPort(addr)
+	if err != nil {
+		return 0
+	}
+	var n int
+	fmt.Sscanf(p, "%d", &n)
+	return n
 }
 
 func waitTCP(addr string, d time.Duration) bool {
